@@ -9,8 +9,9 @@ the pooled spender of each of its inputs and every pooled tx having that input a
 with their descendants), `resolve_conflict_header_dep` (entries with a detached header dep, with
 descendants), `remove_by_detached_proposal` (non-pending entries with a detached proposal id go back
 to pending together with their descendants), the mine-mode stage moves (gap → proposed, pending →
-proposed | gap, by the new snapshot's proposal view), `remove_expired` (only the expired entries
-themselves). Re-adding detached transactions and `limit_size` are outside this model (the harness
+proposed | gap, by the new snapshot's proposal view), `remove_expired` (each expired entry goes
+with its descendants — `remove_entry_and_descendants`, as repaired by /repo 3724ae4; `updatePreF5` keeps
+the earlier `remove_entry`-only behaviour for the witness theorem). Re-adding detached transactions and `limit_size` are outside this model (the harness
 checks them with the implementation-only oracle). Core Lean only.
 -/
 namespace CkbVerif.Reorg
@@ -86,6 +87,14 @@ def moveStage (a : Args) (e : PEnt) : PEnt :=
   else e
 
 def update (p : Pool) (a : Args) : Pool :=
+  let p1 := a.attached.foldl removeCommitted p
+  let p2 := resolveHeaderDeps p1 a.detachedHeaders
+  let p3 := a.detachedProposals.foldl detachProposal p2
+  let p4 := p3.map (moveStage a)
+  a.expired.foldl removeWithDesc p4
+
+/-- the update as it was before /repo 3724ae4 (F5): `remove_expired` used `remove_entry` only -/
+def updatePreF5 (p : Pool) (a : Args) : Pool :=
   let p1 := a.attached.foldl removeCommitted p
   let p2 := resolveHeaderDeps p1 a.detachedHeaders
   let p3 := a.detachedProposals.foldl detachProposal p2
